@@ -16,4 +16,5 @@ print(dict(pr)); print(dict(cn))
 obs=collections.Counter()
 for r in rows:
     for o in r.get('observations') or []: obs[o[:100]]+=1
-print(obs.most_common(10))
+print('observations:', obs.most_common(10))
+print('VIOLATING CASES:', sum(1 for r in rows if r.get('violations')), [(n, k) for k, n in c.most_common(8)])
